@@ -126,6 +126,60 @@ Proof.
     + intros u Hu'. apply Hk. now right.
 Qed.
 
+(** ** A history of [BSP.save] calls
+    Every call builds a fresh writer object; its rebuild phase may raise before the writer is entered (then nothing at
+    all happens and the next call finds the directory as it was).  [pre] = the rebuild phase succeeded. *)
+Definition suse := (bool * scen * list bool)%type.
+Fixpoint shist_good (x : xproto) (h : list suse) (d : dir) : Prop :=
+  match h with
+  | [] => True
+  | (pre, s, fl) :: r =>
+      let st := save_alone x pre s fl d in
+      if pre then use_good s d st /\ (finishedt (q1 st) = true -> shist_good x r (sdt st))
+      else (forall n, sdt st n = d n) /\ trt st = [] /\ shist_good x r d
+  end.
+Fixpoint shfinal (x : xproto) (h : list suse) (d : dir) : dir :=
+  match h with
+  | [] => d
+  | (pre, s, fl) :: r =>
+      let st := save_alone x pre s fl d in
+      if pre then (if finishedt (q1 st) then shfinal x r (sdt st) else sdt st) else shfinal x r d
+  end.
+
+Theorem save_history_good x : proto_ok x = true -> forall h d, shist_good x h d.
+Proof.
+  intros H. induction h as [|[[pre s] fl] r IH]; intros d; cbn [shist_good]; [exact I|].
+  destruct pre.
+  - split; [exact (one_use_good x s d fl H)|intros _; apply IH].
+  - destruct (save_pre_failure_touches_nothing x d s fl) as (A & B & _). repeat split; auto.
+Qed.
+
+(** After any history of saves in which every started writer ran to its end and no cleanup unlink was refused: no
+    temp file more than before, and every file that is no destination of the history is untouched. *)
+Fixpoint shclean (x : xproto) (h : list suse) (d : dir) : Prop :=
+  match h with
+  | [] => True
+  | (pre, s, fl) :: r =>
+      let st := save_alone x pre s fl d in
+      if pre then finishedt (q1 st) = true /\ (forall i, ~ In (false, (EUnlink i, RFault)) (trt st)) /\ shclean x r (sdt st)
+      else shclean x r d
+  end.
+Theorem save_history_no_temp_accumulates x : proto_ok x = true -> forall h d, shclean x h d ->
+  (forall i, shfinal x h d (Tmp i) = d (Tmp i)) /\
+  (forall k, (forall u, In u h -> dest (snd (fst u)) <> k) -> shfinal x h d (File k) = d (File k)).
+Proof.
+  intros H. induction h as [|[[pre s] fl] r IH]; intros d Hc; cbn [shfinal]; [split; reflexivity|].
+  cbn [shclean] in Hc. destruct pre.
+  - cbn [save_alone] in *. destruct Hc as (Hf & Hu & Hc). rewrite Hf. destruct (IH _ Hc) as [IHt IHf].
+    destruct (one_use_good x s d fl H) as (_ & _ & _ & Gt & Gf). split.
+    + intros i. rewrite IHt. now apply Gt.
+    + intros k Hk. rewrite IHf.
+      * apply Gf. intros E. apply (Hk (true, s, fl)); [now left|]. now rewrite E.
+      * intros u Hu'. apply Hk. now right.
+  - destruct (IH _ Hc) as [IHt IHf]. split; [exact IHt|].
+    intros k Hk. apply IHf. intros u Hu'. apply Hk. now right.
+Qed.
+
 (** ** Examples and refutations *)
 Lemma obj_fixed_reusable :
   reuse_indep obj_fixed = true /\ proto_ok (obj_proto obj_fixed) = true /\
@@ -150,4 +204,11 @@ Lemma flag_never_reset_refuted :
   let h := [(sc_a, repeat false 7, o_init o); (sc_raise, repeat false 6, st_after_success)] in
   hclean o h d_old /\
   hfinal o h d_old (Tmp 1) = Some [1] /\ d_old (Tmp 1) = None /\ hfinal o h d_old (File 0) = Some [1; 2; 3].
+Proof. vm_compute. repeat split; auto; intros; intuition discriminate. Qed.
+
+(** A history of saves: a successful one, one whose rebuild phase raises, one abandoned by its body. *)
+Lemma save_history_example :
+  let x := obj_proto obj_fixed in
+  let h := [(true, sc_a, repeat false 7); (false, sc_a, []); (true, sc_raise, repeat false 6)] in
+  shclean x h d_old /\ shfinal x h d_old (File 0) = Some [1; 2; 3] /\ shfinal x h d_old (Tmp 1) = d_old (Tmp 1).
 Proof. vm_compute. repeat split; auto; intros; intuition discriminate. Qed.
